@@ -37,8 +37,21 @@ def value_of(tok):
     if tok == "same":
         return SHARED
     if tok.startswith("v"):
-        return VPOOL[(int(tok[1:]) + SALT[0]) % len(VPOOL)]       # the pool rotates with the vector index
+        i = int(tok[1:])
+        base = VPOOL[(i + SALT[0]) % len(VPOOL)]       # the pool rotates with the vector index
+        # (more tokens than pool entries -- large trees: later rounds wrap the pool entry, so that tokens stay distinguishable)
+        return base if i < len(VPOOL) else _wrapped(i, base)
     return tok          # "n<i>": the string itself
+
+
+_WRAP = {}
+
+
+def _wrapped(i, base):
+    key = (i, SALT[0] % len(VPOOL))
+    if key not in _WRAP:
+        _WRAP[key] = [base, i // len(VPOOL)]
+    return _WRAP[key]
 
 
 def token_of(val, candidates):
@@ -74,6 +87,18 @@ def derender_dict(d, cands):
     # ck: whether the dictionary carries a 'children' entry at all ("present only when non-empty")
     return {"pairs": [[k, token_of(v, cands)] for k, v in d.items() if k != "children"], "ck": "children" in d,
             "children": [derender_dict(c, cands) for c in kids] if isinstance(kids, list) else [{"pairs": [["?", "?"]], "children": []}]}
+
+
+def flatten_d(d, lv=0, out=None):
+    """Nested token dictionary -> pre-order list of entries [lv, pairs, nk, ck] (iteratively: dictionaries can be hundreds of levels deep)."""
+    out = []
+    stack = [(d, 0)]
+    while stack:
+        x, lv = stack.pop()
+        out.append({"lv": lv, "pairs": x["pairs"], "nk": len(x["children"]), "ck": bool(x.get("ck", len(x["children"]) > 0))})
+        for c in reversed(x["children"]):
+            stack.append((c, lv + 1))
+    return out
 
 
 def norm_dict(d):
